@@ -23,15 +23,23 @@ package compile
 // findTypeCycles look for invalid type reference cycles in the given
 // TypeSpec.
 func findTypeCycles(t TypeSpec) error {
-	return make(typeCycleFinder, 0).Visit(t)
+	return typeCycleFinder{done: make(map[TypeSpec]struct{})}.Visit(t)
 }
 
-type typeCycleFinder []TypeSpec
+type typeCycleFinder struct {
+	// chain of TypeSpecs from the starting point to the one being visited
+	path []TypeSpec
+
+	// TypeSpecs that were visited completely without finding a cycle. They
+	// are shared by all clones: a type used in many places is searched once
+	// rather than once per path that leads to it.
+	done map[TypeSpec]struct{}
+}
 
 // visited returns true if the given TypeSpec has already been visited.
 // Otherwise it returns false, and marks the TypeSpec as visited.
 func (f typeCycleFinder) visited(s TypeSpec) bool {
-	for _, t := range f {
+	for _, t := range f.path {
 		if t == s {
 			return true
 		}
@@ -42,10 +50,10 @@ func (f typeCycleFinder) visited(s TypeSpec) bool {
 // cloneWithPart creates a copy of this typeCycleFinder with the given
 // TypeSpec added to the chain.
 func (f typeCycleFinder) cloneWithPart(s TypeSpec) typeCycleFinder {
-	newf := make(typeCycleFinder, 0, len(f)+1)
-	newf = append(newf, f...)
-	newf = append(newf, s)
-	return newf
+	path := make([]TypeSpec, 0, len(f.path)+1)
+	path = append(path, f.path...)
+	path = append(path, s)
+	return typeCycleFinder{path: path, done: f.done}
 }
 
 func (f typeCycleFinder) Visit(s TypeSpec) error {
@@ -54,7 +62,7 @@ func (f typeCycleFinder) Visit(s TypeSpec) error {
 	if f.visited(s) {
 		// cycles are errors only for typedefs
 		if isTypedef {
-			return typeReferenceCycleError{Nodes: append(f, s)}
+			return typeReferenceCycleError{Nodes: append(f.path, s)}
 		}
 		return nil
 	}
@@ -65,5 +73,13 @@ func (f typeCycleFinder) Visit(s TypeSpec) error {
 		return nil
 	}
 
-	return s.ForEachTypeReference(f.cloneWithPart(s).Visit)
+	if _, ok := f.done[s]; ok {
+		return nil
+	}
+
+	if err := s.ForEachTypeReference(f.cloneWithPart(s).Visit); err != nil {
+		return err
+	}
+	f.done[s] = struct{}{}
+	return nil
 }
